@@ -92,6 +92,7 @@ def plan(prop, tier, seed):
         shards += [{"kind": "padded", "n": 250 if q else 2500, "shard": i, "hz": False} for i in range(4 if q else 16)]
         # control hazards and ecall draining must be handled whatever the memory latencies are
         shards += [{"kind": "cached", "n": 150 if q else 1500, "shard": i, "hz": False} for i in range(3 if q else 12)]
+        shards += [{"kind": "reload", "n": 120 if q else 2500, "shard": i, "hz": False} for i in range(2 if q else 6)]
     return shards
 
 
@@ -152,6 +153,15 @@ def run_shard(spec, res):
             res.evaluations += 1
             res.sample(case, 2)
         return
+    if kind == "reload":
+        for it in range(spec["n"]):
+            prog, regs = pad_source(rng)
+            case = {"kind": "reload", "prog": prog, "regs": regs, "mem": G.init_mem(rng), "k": rng.randint(1, 6)}
+            guarded(run_reload_case, prop, case, res)
+            res.evaluations += 1
+            if it < 1:
+                res.sample(case, 2)
+        return
     if kind == "asmdata":
         from . import cache as _cache
 
@@ -209,10 +219,55 @@ def run_shard(spec, res):
             if rng.random() < 0.3:
                 case["dcache"] = rand_cache(rng) if rng.random() < 0.7 else None
                 case["icache"] = rand_cache(rng)
+        if rng.random() < 0.15:
+            case["neighbours"] = True
         guarded(run_case, prop, case, res)
         res.evaluations += 1
         if it < 1:
             res.sample(case, 4)
+
+
+def run_reload_case(prop, case, res):
+    """C08, metamorphic: a hazard-off simulation that has already run a program (k nops: the pipeline is drained, the
+    program counter stands behind them) gets a second program through load_program whose first k slots are nops
+    again and whose body follows.  Execution continues at the body with an empty pipeline, exactly as in a FRESH
+    hazard-off simulation after its k leading nops: registers, memory, output and exit code of
+    the body must be the same - the interlock-free behaviour does not wear off with a reload."""
+    k = case["k"]
+    nops = "\n".join(["addi x0, x0, 0"] * k)
+    body = "\n".join(instr_text(d) for d in case["prog"])
+    outs = []
+    for reloaded in (False, True):
+        sim = make_riscv("five", hz=False)
+        try:
+            if reloaded:
+                sim.load_program(nops)
+                n = 0
+                while not sim.is_done() and n < k + 10:
+                    sim.step()
+                    n += 1
+            sim.load_program(nops + "\n" + body)
+            set_regs(sim, case["regs"])
+            preload_mem(sim, case["mem"])
+            st0 = sim.state.performance_metrics.stalls
+            n = 0
+            while not sim.is_done() and n < 600:
+                sim.step()
+                n += 1
+            if not sim.is_done():
+                return
+        except Exception as e:
+            outs.append(("EXC", type(e).__name__, getattr(e, "address", None)))
+            continue
+        # (the stall counter is not compared: an ecall near the start waits for the leading nops in the fresh run only)
+        outs.append((real_regs(sim), sim.state.output, sim.state.exit_code, mem_image(sim)))
+    res.count("reloaded_hazard_off_runs")
+    if outs[0] != outs[1]:
+        names = ["registers", "output", "exit code", "memory"]
+        what = [names[i] for i in range(4) if outs[0][i] != outs[1][i]] if outs[0][0] != "EXC" and outs[1][0] != "EXC" else [outs[0][:3], outs[1][:3]]
+        res.violation("C08", "reload-changes-behaviour", "hazard detection off: the same body behaves differently in a simulation that ran %d nops before the program was loaded than in a fresh one: %s" % (k, what), case)
+        return
+    res.nontrivial(h64(case))
 
 
 def run_asmdata_case(prop, case, res):
@@ -333,7 +388,14 @@ def run_five(case, res, prop, ref, on_sim=None):
     hz = case["hz"]
     VAL = prop if prop in ("C02", "C08") else ("C02" if hz else "C08")  # tag for value/order clauses
     TIM = "C07" if hz else "C08"  # tag for timing clauses
+    neighbours = []
+    if case.get("neighbours"):
+        neighbours.append(make_riscv("five", hz=not hz))  # other simulations live in the same process ...
     sim = make_riscv("five", hz=hz, dcache=case.get("dcache"), icache=case.get("icache"))
+    if case.get("neighbours"):
+        neighbours.append(make_riscv("five", hz=not hz))  # ... built before and after the one under test
+        neighbours.append(make_riscv("single"))
+        res.count("runs_with_neighbour_simulations")
     install_program(sim, case["prog"])
     set_regs(sim, case["regs"])
     preload_mem(sim, case["mem"])
